@@ -533,7 +533,7 @@ theorem Conc.step_inv {s s' : Conc} {a : Act} {ev : Option Event} (hinv : s.Inv)
     split at h
     · -- idle
       have key : ∀ x : Task, (∀ p, x = .snapping p → p.timeout = none) →
-          (Conc.mk s.cells (setTask s.tasks t x)).Inv := by
+          (Conc.mk s.cells (setTask s.tasks t x) s.seen).Inv := by
         intro x hx
         refine ⟨hc, ?_⟩
         intro t' p hp v hv
@@ -579,24 +579,26 @@ theorem Conc.step_inv {s s' : Conc} {a : Act} {ev : Option Event} (hinv : s.Inv)
     simp only [Conc.step] at h
     split at h
     · rename_i p hp
-      have key : ∀ p' : Partial, (∀ v, p'.timeout = some v → InRange v) →
-          (Conc.mk s.cells (setTask s.tasks t (.snapping p'))).Inv := by
-        intro p' hp'
+      have key : ∀ (p' : Partial) (sn : Nat → Field → Nat), (∀ v, p'.timeout = some v → InRange v) →
+          (Conc.mk s.cells (setTask s.tasks t (.snapping p')) sn).Inv := by
+        intro p' sn hp'
         refine ⟨hc, ?_⟩
         intro t' q hq v hv
         rcases setTask_snapping hq with ⟨_, hx⟩ | ⟨_, hold⟩
         · cases hx; exact hp' v hv
         · exact ht t' q hold v hv
       have old := ht t p hp
-      cases f <;> simp only [Option.bind_eq_some_iff, Option.some.injEq, Prod.mk.injEq] at h <;>
-        obtain ⟨x, hx, rfl, rfl⟩ := h
-      case timeout =>
-        refine ⟨key _ ?_, by simp⟩
-        intro v hv
-        simp only [Option.some.injEq] at hv
-        subst hv
-        exact hc x (List.mem_of_getElem? hx)
-      all_goals exact ⟨key _ old, by simp⟩
+      split at h
+      · cases f <;> simp only [Option.bind_eq_some_iff, Option.some.injEq, Prod.mk.injEq] at h <;>
+          obtain ⟨x, hx, rfl, rfl⟩ := h
+        case timeout =>
+          refine ⟨key _ _ ?_, by simp⟩
+          intro v hv
+          simp only [Option.some.injEq] at hv
+          subst hv
+          exact hc x (List.mem_of_getElem? hx)
+        all_goals exact ⟨key _ _ old, by simp⟩
+      · cases h
     · cases h
   | ret t =>
     simp only [Conc.step] at h
@@ -722,5 +724,584 @@ theorem runAsync_jsonrpc (c : Config) (ctx : Option Ctx) (ls : List (Env × Line
     rcases h with h | h
     · exact dispatchAsync_jsonrpc env c ctx l resp h.symm
     · exact ih _ _ h
+
+end Srtla.Control
+
+namespace Srtla.Control
+open Srtla.Gen
+
+/-! ## Round 4 (P-C item 5): subscription calls and the configuration
+
+`subscribe`, `unsubscribe`, `get_subscription_count` never touch `DynamicConfig`: with a
+`SubscriptionContext` the socket entry point answers them itself from the hub; without one (and on
+stdin) they fall through to `handle_method`, where they are "method not found".  Hence the
+CONFIGURATION component of the socket entry point equals the stdin one on every line, whatever the
+context, and sessions with subscription calls have the same configuration trajectory. -/
+
+/-- `handle_method` on one of the three subscription method names leaves the configuration alone. -/
+theorem handleMethod_sub_config (env : Env) (c : Config) (m : String) (p : Json)
+    (hm : m = "subscribe" ∨ m = "unsubscribe" ∨ m = "get_subscription_count") :
+    (handleMethod env c m p).1 = c := by
+  rcases hm with rfl | rfl | rfl <;> simp [handleMethod]
+
+/-- The three subscription methods leave the `Config` unchanged on the socket entry point, with or
+without a `SubscriptionContext` (and whatever the params / id / version). -/
+theorem dispatchAsync_sub_config (env : Env) (c : Config) (ctx : Option Ctx) (r : Request)
+    (hm : r.method = "subscribe" ∨ r.method = "unsubscribe" ∨ r.method = "get_subscription_count") :
+    (dispatchAsync env c ctx (.request r)).1 = c := by
+  unfold dispatchAsync
+  by_cases hv : r.jsonrpc = Control.JSONRPC_VERSION
+  · simp only [hv, ne_eq, not_true_eq_false, if_false]
+    cases ctx with
+    | none => exact handleMethod_sub_config env c _ _ hm
+    | some x =>
+      simp only
+      by_cases h1 : r.method = "subscribe"
+      · rw [if_pos h1]
+      · rw [if_neg h1]
+        by_cases h2 : r.method = "unsubscribe"
+        · rw [if_pos h2]
+        · rw [if_neg h2]
+          by_cases h3 : r.method = "get_subscription_count"
+          · rw [if_pos h3]
+          · exact absurd hm (by simp [h1, h2, h3])
+  · simp only [hv, ne_eq, not_false_eq_true, if_true]
+
+/-- … and on stdin (where they are reserved / unknown names). -/
+theorem dispatchInner_sub_config (env : Env) (c : Config) (r : Request)
+    (hm : r.method = "subscribe" ∨ r.method = "unsubscribe" ∨ r.method = "get_subscription_count") :
+    (dispatchInner env c (.request r)).1 = c := by
+  unfold dispatchInner
+  by_cases hv : r.jsonrpc = Control.JSONRPC_VERSION
+  · simp only [hv, ne_eq, not_true_eq_false, if_false]
+    exact handleMethod_sub_config env c _ _ hm
+  · simp only [hv, ne_eq, not_false_eq_true, if_true]
+
+/-- **Every line, every context**: the configuration after the socket entry point is the
+configuration after the stdin entry point. -/
+theorem dispatchAsync_config_eq (env : Env) (c : Config) (ctx : Option Ctx) (l : Line) :
+    (dispatchAsync env c ctx l).1 = (dispatchInner env c l).1 := by
+  cases l with
+  | blank => rfl
+  | unparsable => rfl
+  | request r =>
+    by_cases hm : r.method = "subscribe" ∨ r.method = "unsubscribe" ∨ r.method = "get_subscription_count"
+    · rw [dispatchAsync_sub_config env c ctx r hm, dispatchInner_sub_config env c r hm]
+    · have h1 : r.method ≠ "subscribe" := fun h => hm (.inl h)
+      have h2 : r.method ≠ "unsubscribe" := fun h => hm (.inr (.inl h))
+      have h3 : r.method ≠ "get_subscription_count" := fun h => hm (.inr (.inr h))
+      unfold dispatchAsync dispatchInner
+      by_cases hv : r.jsonrpc = Control.JSONRPC_VERSION
+      · cases ctx with
+        | none => simp [hv]
+        | some x => simp [hv, h1, h2, h3]
+      · simp [hv]
+
+/-- A line that is not a version-2.0 subscription call gets the same response on both entry points
+and leaves the context alone — for an OPTIONAL context (`C18_sync_eq_async` + `_no_ctx` in one). -/
+theorem dispatchAsync_nonsub (env : Env) (c : Config) (ctx : Option Ctx) (l : Line)
+    (h : ∀ r, l = .request r → r.jsonrpc = "2.0" →
+      r.method ≠ "subscribe" ∧ r.method ≠ "unsubscribe" ∧ r.method ≠ "get_subscription_count") :
+    dispatchAsync env c ctx l = ((dispatchInner env c l).1, ctx, (dispatchInner env c l).2) := by
+  cases l with
+  | blank => rfl
+  | unparsable => rfl
+  | request r =>
+    unfold dispatchAsync dispatchInner
+    by_cases hv : r.jsonrpc = Control.JSONRPC_VERSION
+    · obtain ⟨h1, h2, h3⟩ := h r rfl hv
+      cases ctx with
+      | none => simp [hv]
+      | some x => simp [hv, h1, h2, h3]
+    · simp [hv]
+
+/-- Whole sessions, ANY lines (subscription calls included), any context: same final configuration
+as the stdin entry point on the same lines. -/
+theorem runAsync_config_eq (c : Config) (ctx : Option Ctx) (ls : List (Env × Line)) :
+    (runAsync c ctx ls).1 = (runSync c ls).1 := by
+  induction ls generalizing c ctx with
+  | nil => rfl
+  | cons el rest ih =>
+    simp only [runAsync, runSync]
+    rw [ih, dispatchAsync_config_eq]
+
+/-- The k-th response of a session: a line that is not a version-2.0 subscription call is answered
+identically by both entry points, whatever OTHER lines of the session are. -/
+theorem runAsync_resp_eq (c : Config) (ctx : Option Ctx) (ls : List (Env × Line)) (k : Nat)
+    (h : ∀ el, ls[k]? = some el → ∀ r, el.2 = .request r → r.jsonrpc = "2.0" →
+      r.method ≠ "subscribe" ∧ r.method ≠ "unsubscribe" ∧ r.method ≠ "get_subscription_count") :
+    (runAsync c ctx ls).2.2[k]? = (runSync c ls).2[k]? := by
+  induction ls generalizing c ctx k with
+  | nil => rfl
+  | cons el rest ih =>
+    simp only [runAsync, runSync]
+    cases k with
+    | zero =>
+      simp only [List.getElem?_cons_zero, Option.some.injEq]
+      rw [dispatchAsync_nonsub el.1 c ctx el.2 (h el rfl)]
+    | succ k =>
+      simp only [List.getElem?_cons_succ]
+      rw [dispatchAsync_config_eq]
+      exact ih _ _ k (fun el' hel => h el' (by simpa using hel))
+
+theorem runAsync_length (c : Config) (ctx : Option Ctx) (ls : List (Env × Line)) :
+    (runAsync c ctx ls).2.2.length = ls.length ∧ (runSync c ls).2.length = ls.length := by
+  induction ls generalizing c ctx with
+  | nil => exact ⟨rfl, rfl⟩
+  | cons el rest ih =>
+    simp only [runAsync, runSync, List.length_cons]
+    exact ⟨by rw [(ih _ _).1], by rw [(ih _ ctx).2]⟩
+
+/-- `get_status` on the socket entry point, any context. -/
+theorem status_reply_async (env : Env) (c : Config) (ctx : Option Ctx) (p i : Json) :
+    dispatchAsync env c ctx (statusReq p i) =
+      (c, ctx, some (Response.ok i (statusJson c.snapshot env.cw))) := by
+  rw [dispatchAsync_nonsub env c ctx _ (by
+    intro r hr _
+    simp only [statusReq, Line.request.injEq] at hr
+    subst hr
+    simp)]
+  rw [status_reply]
+
+/-- Session shape "setter, then ANY lines on the socket (subscription calls allowed), then
+`get_status`": everything the caller observes about the configuration coincides with the stdin
+session on the same lines. -/
+theorem async_session_lift (env : Env) (c : Config) (ctx : Option Ctx) (r : Request)
+    (hsub : r.method ≠ "subscribe" ∧ r.method ≠ "unsubscribe" ∧ r.method ≠ "get_subscription_count")
+    (mid : List (Env × Line)) (env' : Env) (p' i' : Json) :
+    let o1 := dispatchAsync env c ctx (.request r)
+    let o2 := runAsync o1.1 o1.2.1 mid
+    o1.2.2 = (dispatchInner env c (.request r)).2 ∧ o1.2.1 = ctx ∧
+    o1.1 = (dispatchInner env c (.request r)).1 ∧
+    o2.1 = (runSync (dispatchInner env c (.request r)).1 mid).1 ∧
+    (dispatchAsync env' o2.1 o2.2.1 (statusReq p' i')).2.2 =
+      (dispatchInner env' (runSync (dispatchInner env c (.request r)).1 mid).1 (statusReq p' i')).2 := by
+  intro o1 o2
+  have e1 : o1 = ((dispatchInner env c (.request r)).1, ctx, (dispatchInner env c (.request r)).2) :=
+    dispatchAsync_nonsub env c ctx _ (by intro q hq _; cases hq; exact hsub)
+  have e2 : o2.1 = (runSync (dispatchInner env c (.request r)).1 mid).1 := by
+    simp only [o2, e1]; exact runAsync_config_eq _ _ _
+  refine ⟨by rw [e1], by rw [e1], by rw [e1], e2, ?_⟩
+  rw [status_reply_async, status_reply, e2]
+
+end Srtla.Control
+
+namespace Srtla.Control
+open Srtla.Gen
+
+/-! ## Round 4 (P-C item 6): per-location coherence of the refined `Conc` model
+
+Uniform (field-generic) characterisations of the four kinds of step, then the invariant `Conc.Vis`
+"task `t` stored `v` on top of the history `old` of cell `f`" and its consequences. -/
+
+theorem setSeen_same (seen : Nat → Field → Nat) (t : Nat) (f : Field) (p : Nat) :
+    setSeen seen t f p t f = p := by simp [setSeen]
+
+theorem setSeen_other (seen : Nat → Field → Nat) (t : Nat) (f : Field) (p : Nat) (t' : Nat) (g : Field)
+    (h : ¬ (t' = t ∧ g = f)) : setSeen seen t f p t' g = seen t' g := by simp [setSeen, h]
+
+theorem setTask_other (tasks : Nat → Task) (t : Nat) (x : Task) (t' : Nat) (h : t' ≠ t) :
+    setTask tasks t x t' = tasks t' := by simp [setTask, h]
+
+/-- entry at position `q` ↔ entry at index `len − 1 − q` of the newest-first list -/
+theorem Cells.at?_eq (c : Cells) (f : Field) (q : Nat) (hq : q < c.len f) :
+    c.at? f q = (c.view f)[c.len f - 1 - q]? := by
+  unfold Cells.at? Cells.len at *
+  exact List.getElem?_reverse hq
+
+theorem Cells.at?_of_index (c : Cells) (f : Field) (k : Nat) (x : Val) (h : (c.view f)[k]? = some x) :
+    k < c.len f ∧ c.at? f (c.len f - 1 - k) = some x := by
+  have hk : k < (c.view f).length := by
+    rcases List.getElem?_eq_some_iff.1 h with ⟨hk, -⟩; exact hk
+  refine ⟨hk, ?_⟩
+  rw [Cells.at?_eq c f _ (by unfold Cells.len; omega)]
+  have : c.len f - 1 - (c.len f - 1 - k) = k := by unfold Cells.len; omega
+  rw [this]; exact h
+
+/-- `call`: only the calling task's control state changes; a fresh snapshot has loaded nothing. -/
+theorem Conc.step_call_spec {s s' : Conc} {t : Nat} {op : Op} {ev : Option Event}
+    (h : s.step (.call t op) = some (s', ev)) :
+    s'.cells = s.cells ∧ s'.seen = s.seen ∧ ev = none ∧
+    ∃ x, s'.tasks = setTask s.tasks t x ∧ ∀ part, x = .snapping part → ∀ g, part.at? g = none := by
+  simp only [Conc.step] at h
+  split at h
+  · cases op <;> simp only [Option.some.injEq, Prod.mk.injEq] at h <;> obtain ⟨rfl, rfl⟩ := h
+    all_goals refine ⟨rfl, rfl, rfl, _, rfl, ?_⟩
+    all_goals intro part hp
+    all_goals first
+      | (cases hp; intro g; cases g <;> rfl)
+      | cases hp
+  · cases h
+
+/-- `store`: one cell gets a new newest entry, the storing task has seen it and is idle again. -/
+theorem Conc.step_store_spec {s s' : Conc} {t : Nat} {ev : Option Event}
+    (h : s.step (.store t) = some (s', ev)) :
+    ∃ op f v, s.tasks t = .storing op ∧ op.target = some (f, v) ∧
+      (∀ g, s'.cells.view g = if g = f then v :: s.cells.view g else s.cells.view g) ∧
+      s'.seen = setSeen s.seen t f (s.cells.len f) ∧ s'.tasks = setTask s.tasks t .idle := by
+  simp only [Conc.step] at h
+  split at h
+  · rename_i op hop
+    cases op <;> simp only [Option.some.injEq, Prod.mk.injEq, reduceCtorEq] at h
+    case setMode m =>
+      obtain ⟨rfl, -⟩ := h
+      exact ⟨_, .mode, _, hop, rfl, fun g => by cases g <;> simp [Cells.view], rfl, rfl⟩
+    case setQuality b =>
+      obtain ⟨rfl, -⟩ := h
+      exact ⟨_, .quality, _, hop, rfl, fun g => by cases g <;> simp [Cells.view], rfl, rfl⟩
+    case setStall b =>
+      obtain ⟨rfl, -⟩ := h
+      exact ⟨_, .stall, _, hop, rfl, fun g => by cases g <;> simp [Cells.view], rfl, rfl⟩
+    case setTimeout ms =>
+      obtain ⟨rfl, -⟩ := h
+      exact ⟨_, .timeout, _, hop, rfl, fun g => by cases g <;> simp [Cells.view], rfl, rfl⟩
+  · cases h
+
+/-- a setter that is about to store can always do so -/
+theorem Conc.step_store_enabled {s : Conc} {t : Nat} {op : Op} {f : Field} {v : Val}
+    (h : s.tasks t = .storing op) (hf : op.target = some (f, v)) :
+    ∃ s' ev, s.step (.store t) = some (s', ev) := by
+  simp only [Conc.step, h]
+  cases op <;> simp [Op.target] at hf ⊢
+
+/-- `load`: the cells do not change; the value read sits at index `k`, its position is not below
+what the task had seen, becomes what the task has seen, and lands in the partial snapshot. -/
+theorem Conc.step_load_spec {s s' : Conc} {t : Nat} {f : Field} {k : Nat} {ev : Option Event}
+    (h : s.step (.load t f k) = some (s', ev)) :
+    ∃ part part' x, s.tasks t = .snapping part ∧ (s.cells.view f)[k]? = some x ∧
+      s.seen t f ≤ s.cells.len f - 1 - k ∧ s'.cells = s.cells ∧
+      s'.seen = setSeen s.seen t f (s.cells.len f - 1 - k) ∧
+      s'.tasks = setTask s.tasks t (.snapping part') ∧ part'.at? f = some x ∧
+      (∀ g, g ≠ f → part'.at? g = part.at? g) ∧ ev = none := by
+  simp only [Conc.step] at h
+  split at h
+  · rename_i part hp
+    split at h
+    · rename_i hle
+      cases f <;> simp only [Option.bind_eq_some_iff, Option.some.injEq, Prod.mk.injEq] at h <;>
+        obtain ⟨x, hx, rfl, rfl⟩ := h
+      case mode =>
+        exact ⟨part, _, Val.nat x, hp, by simp [Cells.view, hx], hle, rfl, rfl, rfl, rfl,
+          fun g hg => by cases g <;> first | rfl | exact absurd rfl hg, rfl⟩
+      case quality =>
+        exact ⟨part, _, Val.bool x, hp, by simp [Cells.view, hx], hle, rfl, rfl, rfl, rfl,
+          fun g hg => by cases g <;> first | rfl | exact absurd rfl hg, rfl⟩
+      case stall =>
+        exact ⟨part, _, Val.bool x, hp, by simp [Cells.view, hx], hle, rfl, rfl, rfl, rfl,
+          fun g hg => by cases g <;> first | rfl | exact absurd rfl hg, rfl⟩
+      case minInFlight =>
+        exact ⟨part, _, Val.int x, hp, by simp [Cells.view, hx], hle, rfl, rfl, rfl, rfl,
+          fun g hg => by cases g <;> first | rfl | exact absurd rfl hg, rfl⟩
+      case ackStale =>
+        exact ⟨part, _, Val.nat x, hp, by simp [Cells.view, hx], hle, rfl, rfl, rfl, rfl,
+          fun g hg => by cases g <;> first | rfl | exact absurd rfl hg, rfl⟩
+      case timeout =>
+        exact ⟨part, _, Val.nat x, hp, by simp [Cells.view, hx], hle, rfl, rfl, rfl, rfl,
+          fun g hg => by cases g <;> first | rfl | exact absurd rfl hg, rfl⟩
+    · cases h
+  · cases h
+
+/-- `ret`: the snapshot returned is the completed partial; nothing else changes. -/
+theorem Conc.step_ret_spec {s s' : Conc} {t : Nat} {ev : Option Event}
+    (h : s.step (.ret t) = some (s', ev)) :
+    ∃ part snap, s.tasks t = .snapping part ∧ part.complete = some snap ∧ s'.cells = s.cells ∧
+      s'.seen = s.seen ∧ s'.tasks = setTask s.tasks t .idle ∧ ev = some (.snapshot t snap) := by
+  simp only [Conc.step] at h
+  split at h
+  · rename_i part hp
+    split at h
+    · rename_i snap hsnap
+      simp only [Option.some.injEq, Prod.mk.injEq] at h
+      obtain ⟨rfl, rfl⟩ := h
+      exact ⟨part, snap, hp, hsnap, rfl, rfl, rfl, rfl⟩
+    · cases h
+  · cases h
+
+/-- The invariant that holds for task `t` from its store on: the history of cell `f` is
+`newer ++ v :: old` (`v` = what `t` stored, `old` = the history it stored on top of, `newer` = later
+stores by anybody); `t`'s coherence view of `f` is at or above the position of `v`; and whatever `t`'s
+snapshot under construction holds for `f` is the entry at that view. -/
+structure Conc.Vis (s : Conc) (t : Nat) (f : Field) (old : List Val) (v : Val) : Prop where
+  hist : ∃ newer, s.cells.view f = newer ++ v :: old
+  lo : old.length ≤ s.seen t f
+  hi : s.seen t f < s.cells.len f
+  part : ∀ part x, s.tasks t = .snapping part → part.at? f = some x →
+    s.cells.at? f (s.seen t f) = some x
+
+theorem Conc.Vis.step {s s' : Conc} {t : Nat} {f : Field} {old : List Val} {v : Val} {a : Act}
+    {ev : Option Event} (hv : s.Vis t f old v) (h : s.step a = some (s', ev)) : s'.Vis t f old v := by
+  obtain ⟨⟨newer, hh⟩, hlo, hhi, hpart⟩ := hv
+  cases a with
+  | call t' op =>
+    obtain ⟨hc, hs, -, x, ht, hx⟩ := Conc.step_call_spec h
+    refine ⟨⟨newer, by rw [hc]; exact hh⟩, by rw [hs]; exact hlo, by rw [hs, hc]; exact hhi, ?_⟩
+    intro part y hp hy
+    rw [ht] at hp
+    rw [hs, hc]
+    by_cases e : t = t'
+    · subst e
+      rw [setTask_same] at hp
+      rw [hx part hp f] at hy; cases hy
+    · rw [setTask_other _ _ _ _ e] at hp
+      exact hpart part y hp hy
+  | store t' =>
+    obtain ⟨op, f', v', -, -, hview, hseen, htasks⟩ := Conc.step_store_spec h
+    have hlen : s.cells.len f ≤ s'.cells.len f := by
+      unfold Cells.len; rw [hview f]; split <;> simp
+    have hat : ∀ q, q < s.cells.len f → s'.cells.at? f q = s.cells.at? f q := by
+      intro q hq
+      unfold Cells.at?; rw [hview f]
+      split
+      · rw [List.reverse_cons]
+        exact List.getElem?_append_left (by simpa [Cells.len] using hq)
+      · rfl
+    by_cases e : t = t' ∧ f = f'
+    · obtain ⟨rfl, rfl⟩ := e
+      have hl' : s'.cells.len f = s.cells.len f + 1 := by
+        unfold Cells.len; rw [hview f]; simp
+      refine ⟨⟨v' :: newer, by rw [hview f, if_pos rfl, hh]; rfl⟩, ?_, ?_, ?_⟩
+      · rw [hseen, setSeen_same]; omega
+      · rw [hseen, setSeen_same, hl']; omega
+      · intro part y hp
+        rw [htasks, setTask_same] at hp; cases hp
+    · have hs : s'.seen t f = s.seen t f := by
+        rw [hseen]; exact setSeen_other _ _ _ _ _ _ e
+      refine ⟨?_, by rw [hs]; exact hlo, by rw [hs]; omega, ?_⟩
+      · rw [hview f]
+        split
+        · exact ⟨v' :: newer, by rw [hh]; rfl⟩
+        · exact ⟨newer, hh⟩
+      · intro part y hp hy
+        rw [hs, hat _ hhi]
+        rw [htasks] at hp
+        by_cases e' : t = t'
+        · subst e'; rw [setTask_same] at hp; cases hp
+        · rw [setTask_other _ _ _ _ e'] at hp
+          exact hpart part y hp hy
+  | load t' f' k =>
+    obtain ⟨part0, part', x, htask, hx, hle, hc, hseen, htasks, hpx, hpo, -⟩ := Conc.step_load_spec h
+    by_cases e : t = t' ∧ f = f'
+    · obtain ⟨rfl, rfl⟩ := e
+      obtain ⟨hk, hatx⟩ := Cells.at?_of_index s.cells f k x hx
+      refine ⟨⟨newer, by rw [hc]; exact hh⟩, ?_, ?_, ?_⟩
+      · rw [hseen, setSeen_same]; omega
+      · rw [hseen, setSeen_same, hc]; omega
+      · intro part y hp hy
+        rw [htasks, setTask_same] at hp
+        cases hp
+        rw [hpx] at hy; cases hy
+        rw [hseen, setSeen_same, hc]; exact hatx
+    · have hs : s'.seen t f = s.seen t f := by
+        rw [hseen]; exact setSeen_other _ _ _ _ _ _ e
+      refine ⟨⟨newer, by rw [hc]; exact hh⟩, by rw [hs]; exact hlo, by rw [hs, hc]; exact hhi, ?_⟩
+      intro part y hp hy
+      rw [hs, hc]
+      rw [htasks] at hp
+      by_cases e' : t = t'
+      · subst e'
+        rw [setTask_same] at hp; cases hp
+        have hne : f ≠ f' := fun hf => e ⟨rfl, hf⟩
+        rw [hpo f hne] at hy
+        exact hpart part0 y htask hy
+      · rw [setTask_other _ _ _ _ e'] at hp
+        exact hpart part y hp hy
+  | ret t' =>
+    obtain ⟨part0, snap, -, -, hc, hs, htasks, -⟩ := Conc.step_ret_spec h
+    refine ⟨⟨newer, by rw [hc]; exact hh⟩, by rw [hs]; exact hlo, by rw [hs, hc]; exact hhi, ?_⟩
+    intro part y hp hy
+    rw [hs, hc]
+    rw [htasks] at hp
+    by_cases e' : t = t'
+    · subst e'; rw [setTask_same] at hp; cases hp
+    · rw [setTask_other _ _ _ _ e'] at hp
+      exact hpart part y hp hy
+
+theorem Conc.Vis.run {t : Nat} {f : Field} {old : List Val} {v : Val} (acts : List Act) :
+    ∀ {s : Conc}, s.Vis t f old v → (s.run acts).1.Vis t f old v := by
+  induction acts with
+  | nil => intro s hv; exact hv
+  | cons a rest ih =>
+    intro s hv
+    simp only [Conc.run]
+    cases hstep : s.step a with
+    | none => exact ih hv
+    | some r => obtain ⟨s', ev⟩ := r; exact ih (hv.step hstep)
+
+/-- right after the store the invariant holds, whatever the state was before -/
+theorem Conc.Vis.of_store {s s' : Conc} {t : Nat} {op : Op} {f : Field} {v : Val} {ev : Option Event}
+    (htask : s.tasks t = .storing op) (hf : op.target = some (f, v))
+    (h : s.step (.store t) = some (s', ev)) :
+    s'.Vis t f (s.cells.view f) v ∧ s'.cells.view f = v :: s.cells.view f ∧ s'.tasks t = .idle := by
+  obtain ⟨op', f', v', htask', htar, hview, hseen, htasks⟩ := Conc.step_store_spec h
+  rw [htask] at htask'; cases htask'
+  rw [hf] at htar; cases htar
+  have hv : s'.cells.view f = v :: s.cells.view f := by rw [hview f, if_pos rfl]
+  refine ⟨⟨⟨[], by rw [hv]; rfl⟩, ?_, ?_, ?_⟩, hv, by rw [htasks, setTask_same]⟩
+  · rw [hseen, setSeen_same]; exact Nat.le_refl _
+  · rw [hseen, setSeen_same]; unfold Cells.len; rw [hv]; simp
+  · intro part y hp
+    rw [htasks, setTask_same] at hp; cases hp
+
+/-- an entry at index `k ≤ |newer|` of `newer ++ v :: old` is `v` or a member of `newer` -/
+theorem index_newer_or_self {newer old : List Val} {v x : Val} {k : Nat}
+    (hk : k ≤ newer.length) (h : (newer ++ v :: old)[k]? = some x) : x = v ∨ x ∈ newer := by
+  by_cases hlt : k < newer.length
+  · rw [List.getElem?_append_left hlt] at h
+    exact .inr (List.mem_of_getElem? h)
+  · have : k = newer.length := by omega
+    subst this
+    rw [List.getElem?_append_right (Nat.le_refl _)] at h
+    simp at h
+    exact .inl h.symm
+
+/-- what the invariant says about an entry at a position at or above `t`'s store -/
+theorem Conc.Vis.at_mem {s : Conc} {f : Field} {old newer : List Val} {v x : Val} {q : Nat}
+    (hh : s.cells.view f = newer ++ v :: old) (hq : old.length ≤ q)
+    (h : s.cells.at? f q = some x) : x = v ∨ x ∈ newer := by
+  have hlen : s.cells.len f = newer.length + 1 + old.length := by
+    unfold Cells.len; rw [hh]; simp; omega
+  have hq2 : q < s.cells.len f := by
+    unfold Cells.at? at h
+    rcases List.getElem?_eq_some_iff.1 h with ⟨hq2, -⟩
+    simpa [Cells.len] using hq2
+  rw [Cells.at?_eq _ _ _ hq2, hh] at h
+  exact index_newer_or_self (by omega) h
+
+/-! ### from the uniform view back to the typed cells -/
+
+theorem map_inj_list {α : Type} (g : α → Val) (hg : ∀ x y, g x = g y → x = y) :
+    ∀ l l' : List α, l.map g = l'.map g → l = l'
+  | [], [], _ => rfl
+  | [], _ :: _, h => by simp at h
+  | _ :: _, [], h => by simp at h
+  | x :: l, y :: l', h => by
+    simp only [List.map_cons, List.cons.injEq] at h
+    rw [hg x y h.1, map_inj_list g hg l l' h.2]
+
+/-- a typed newest-first history whose uniform view is `newerV ++ g a :: old.map g` is
+`newer ++ a :: old` with `newerV = newer.map g` -/
+theorem map_split {α : Type} (g : α → Val) (hg : ∀ x y, g x = g y → x = y) (old : List α) (a : α) :
+    ∀ (newerV : List Val) (l : List α), l.map g = newerV ++ g a :: old.map g →
+      ∃ newer, l = newer ++ a :: old ∧ newerV = newer.map g
+  | [], l, h => ⟨[], map_inj_list g hg l (a :: old) (by simpa using h), rfl⟩
+  | y :: ys, [], h => by simp at h
+  | y :: ys, x :: l, h => by
+    simp only [List.map_cons, List.cons_append, List.cons.injEq] at h
+    obtain ⟨newer, h1, h2⟩ := map_split g hg old a ys l h.2
+    exact ⟨x :: newer, by rw [h1]; rfl, by rw [h2, ← h.1]; rfl⟩
+
+theorem Val.nat_inj : ∀ x y : Nat, Val.nat x = Val.nat y → x = y := fun _ _ h => by cases h; rfl
+theorem Val.bool_inj : ∀ x y : Bool, Val.bool x = Val.bool y → x = y := fun _ _ h => by cases h; rfl
+
+/-- the fields of a returned snapshot are the fields of the completed partial -/
+theorem Partial.complete_at {p : Partial} {snap : Snapshot} (h : p.complete = some snap) :
+    (∃ m, p.at? .mode = some (.nat m) ∧ snap.mode = Mode.fromU8 m) ∧
+    p.at? .quality = some (.bool snap.quality) ∧ p.at? .stall = some (.bool snap.stall) ∧
+    p.at? .timeout = some (.nat snap.timeout) := by
+  unfold Partial.complete at h
+  split at h
+  · rename_i m q st mi a tm hm hq hst hmi ha htm
+    cases h
+    simp [Partial.at?, hm, hq, hst, htm]
+  · cases h
+
+/-! ### whole schedules: appending, locating an event, histories only grow -/
+
+theorem Conc.run_append (s : Conc) (a b : List Act) :
+    s.run (a ++ b) = (((s.run a).1.run b).1, (s.run a).2 ++ ((s.run a).1.run b).2) := by
+  induction a generalizing s with
+  | nil => simp [Conc.run]
+  | cons x xs ih =>
+    simp only [List.cons_append, Conc.run]
+    cases hstep : s.step x with
+    | none => exact ih s
+    | some r =>
+      obtain ⟨s', ev⟩ := r
+      simp only [ih s']
+      cases ev <;> simp
+
+/-- every event of the trace was emitted by some step of the schedule -/
+theorem Conc.run_event {s : Conc} {acts : List Act} {e : Event} (h : e ∈ (s.run acts).2) :
+    ∃ a1 a a2 s', acts = a1 ++ a :: a2 ∧ (s.run a1).1.step a = some (s', some e) := by
+  induction acts generalizing s with
+  | nil => simp [Conc.run] at h
+  | cons x xs ih =>
+    simp only [Conc.run] at h
+    cases hstep : s.step x with
+    | none =>
+      rw [hstep] at h
+      obtain ⟨a1, a, a2, s', h1, h2⟩ := ih h
+      refine ⟨x :: a1, a, a2, s', by rw [h1]; rfl, ?_⟩
+      simp only [Conc.run, hstep]; exact h2
+    | some r =>
+      obtain ⟨s1, ev⟩ := r
+      rw [hstep] at h
+      have hrest : (∃ e', ev = some e' ∧ e = e') ∨ e ∈ (s1.run xs).2 := by
+        cases ev with
+        | none => exact .inr h
+        | some e' =>
+          simp only [List.mem_cons] at h
+          rcases h with h | h
+          · exact .inl ⟨e', rfl, h⟩
+          · exact .inr h
+      rcases hrest with ⟨e', rfl, rfl⟩ | hrest
+      · exact ⟨[], x, xs, s1, rfl, by simpa [Conc.run] using hstep⟩
+      · obtain ⟨a1, a, a2, s', h1, h2⟩ := ih hrest
+        refine ⟨x :: a1, a, a2, s', by rw [h1]; rfl, ?_⟩
+        simp only [Conc.run, hstep]; exact h2
+
+/-- modification orders only grow (by prepending) -/
+theorem Conc.step_view_grows {s s' : Conc} {a : Act} {ev : Option Event} (h : s.step a = some (s', ev))
+    (f : Field) : ∃ ext, s'.cells.view f = ext ++ s.cells.view f := by
+  cases a with
+  | call t op => obtain ⟨hc, -⟩ := Conc.step_call_spec h; exact ⟨[], by rw [hc]; rfl⟩
+  | store t =>
+    obtain ⟨-, f', v', -, -, hview, -⟩ := Conc.step_store_spec h
+    rw [hview f]; split
+    · exact ⟨[v'], rfl⟩
+    · exact ⟨[], rfl⟩
+  | load t g k =>
+    obtain ⟨-, -, -, -, -, -, hc, -⟩ := Conc.step_load_spec h; exact ⟨[], by rw [hc]; rfl⟩
+  | ret t => obtain ⟨-, -, -, -, hc, -⟩ := Conc.step_ret_spec h; exact ⟨[], by rw [hc]; rfl⟩
+
+theorem Conc.run_view_grows (s : Conc) (acts : List Act) (f : Field) :
+    ∃ ext, (s.run acts).1.cells.view f = ext ++ s.cells.view f := by
+  induction acts generalizing s with
+  | nil => exact ⟨[], rfl⟩
+  | cons x xs ih =>
+    simp only [Conc.run]
+    cases hstep : s.step x with
+    | none => exact ih s
+    | some r =>
+      obtain ⟨s1, ev⟩ := r
+      obtain ⟨e1, h1⟩ := Conc.step_view_grows hstep f
+      obtain ⟨e2, h2⟩ := ih s1
+      exact ⟨e2 ++ e1, by simp only; rw [h2, h1, List.append_assoc]⟩
+
+/-- field `f` of a returned snapshot holds the value `x` (typed fields against the uniform `Val`;
+`mode` is stored as a `u8` and read back through `SchedulingMode::from_u8`) -/
+def Snapshot.has (snap : Snapshot) : Field → Val → Prop
+  | .mode, .nat m => snap.mode = Mode.fromU8 m
+  | .quality, .bool b => snap.quality = b
+  | .stall, .bool b => snap.stall = b
+  | .minInFlight, .int i => snap.minInFlight = i
+  | .ackStale, .nat n => snap.ackStale = n
+  | .timeout, .nat n => snap.timeout = n
+  | _, _ => False
+
+theorem Partial.complete_has {p : Partial} {snap : Snapshot} (h : p.complete = some snap) (f : Field) :
+    ∃ x, p.at? f = some x ∧ snap.has f x := by
+  unfold Partial.complete at h
+  split at h
+  · rename_i m q st mi a tm hm hq hst hmi ha htm
+    cases h
+    cases f
+    · exact ⟨.nat m, by simp [Partial.at?, hm], rfl⟩
+    · exact ⟨.bool q, by simp [Partial.at?, hq], rfl⟩
+    · exact ⟨.bool st, by simp [Partial.at?, hst], rfl⟩
+    · exact ⟨.int mi, by simp [Partial.at?, hmi], rfl⟩
+    · exact ⟨.nat a, by simp [Partial.at?, ha], rfl⟩
+    · exact ⟨.nat tm, by simp [Partial.at?, htm], rfl⟩
+  · cases h
 
 end Srtla.Control
